@@ -138,6 +138,17 @@ fn main() {
             println!("{}", String::from_utf8_lossy(&out.stderr));
             rt::cleanup(&b);
         }
+        "c06-child" => {
+            let tier = parse_tier(arg_val(&args, "--tier"));
+            let seed = parse_seed(arg_val(&args, "--seed"));
+            let shard: usize = arg_val(&args, "--shard").and_then(|s| s.parse().ok()).unwrap_or(0);
+            let of: usize = arg_val(&args, "--of").and_then(|s| s.parse().ok()).unwrap_or(1);
+            install_panic_hook();
+            run_in_big_stack(move || {
+                let ctx = Ctx::new("C06", tier, seed, shard, of, None);
+                mon::c06::child(&ctx);
+            });
+        }
         "warm" => {
             // setup aid: build the artifact dependencies once per target-dir slot
             for slot in 0..4usize {
